@@ -117,6 +117,9 @@ def _snapshot_class_state(ns):
             "cap": d.get("_BUFFER_CAPACITY", _NS),
             "threading": d.get("_threading_support_is_active", _NS),
             "keys": set(d),      # which class attributes the class itself defines at import time (others are inherited)
+            # ... and of which TYPE the mutable ones are (a fresh value of the same type is installed by the reset: a plain
+            # dict in place of, say, a WeakValueDictionary would change the library's behaviour)
+            "types": {a: type(d[a]) for a in ("_buffer", "_buffered_collections") if a in d},
         }
     return snap
 
@@ -146,7 +149,7 @@ def world_reset(clear_type_maps=True):
         # again (it then reads its parent's value, as after a fresh import), one it did define gets a fresh empty value
         for attr, fresh_value in (("_buffer", dict), ("_CURRENT_BUFFER_SIZE", int), ("_buffered_collections", dict)):
             if attr in init.get("keys", ()):
-                setattr(c, attr, fresh_value())
+                setattr(c, attr, init.get("types", {}).get(attr, fresh_value)())
             elif attr in c.__dict__:
                 try:
                     delattr(c, attr)
